@@ -1,3 +1,4 @@
+import AquaVerif.Proofs.SoilTexture
 import AquaVerif.Generated.SoilTable
 import AquaVerif.Proofs.SoilBuild
 import AquaVerif.Proofs.InitWC
@@ -285,6 +286,96 @@ theorem gw_variable_linear_in_gaps (s1 s2 : List (Option α)) (va vb : α) (m t 
   fillGaps_between s1 s2 va vb m t ht
 
 end field
+
+/-! ## Texture-based layers (work package U) -/
+
+section texture
+variable {α : Type} [Field α] [LinearOrder α] [IsStrictOrderedRing α]
+
+/-- A layer added with `add_layer_from_texture` satisfies the premise of `hydraulic_order_of_spec`:
+for sand and clay percentages in the texture triangle with clay ≤ 50 %, organic matter ≤ 8 % and
+(organic matter ≥ 1 % or clay ≥ 3 %) the pedotransfer method does not raise and hands `add_layer` values with
+`0 < th_wp < th_fc ≤ th_s < 1`, `0 < Ksat` (laws of `F`: `round` within 1/2 and sign-preserving,
+`log` monotone, `x ** y ≥ x³` for `0 < x ≤ 1`, `y ≤ 3`; all three hold for the reals,
+`Proofs/SoilTextureReal.lean`). -/
+theorem texture_layer_hydraulic_order {τ : Type} {F : Fn α} (hR : TexRoundLaws F)
+    (hL : TexLogPowLaws F) (t : τ) {sp cp om : α} (pen : α) (hs : 0 ≤ sp) (hc : 0 ≤ cp)
+    (hsc : sp + cp ≤ 100) (hc5 : cp ≤ 50) (ho0 : 0 ≤ om) (ho8 : om ≤ 8) (ho1 : 1 ≤ om ∨ 3 ≤ cp) :
+    ∃ L : LayerSpec α τ, layerFromTexture F t sp cp om pen = .ok L ∧
+      0 < L.wp ∧ L.wp < L.fc ∧ L.fc ≤ L.s ∧ L.s < 1 ∧ 0 < L.ksat :=
+  layerFromTexture_spec_ok hR hL t pen hs hc hsc hc5 ho0 ho8 ho1
+
+/-- The same for the method itself, for every density factor in [0.9, 1]. -/
+theorem texture_hydraulic_order {F : Fn α} (hR : TexRoundLaws F) (hL : TexLogPowLaws F)
+    {s c om df : α} (h : TexRegion s c om) (hc5 : c ≤ 0.5) (ho1 : 1 ≤ om ∨ 0.03 ≤ c) (hd0 : 0.9 ≤ df)
+    (hd1 : df ≤ 1) :
+    ∃ wp fc ts k, hydraulicFromTexture F s c om df = .ok (wp, fc, ts, k) ∧
+      0 < wp ∧ wp < fc ∧ fc < ts ∧ ts < 1 ∧ 0 < k :=
+  texture_order_region_df hR hL h hc5 ho1 hd0 hd1
+
+/-- Up to clay 60 % when organic matter ≤ 3 % (default density factor; `Ksat ≥ 0` only). -/
+theorem texture_hydraulic_order_clay60 {F : Fn α} (hR : TexRoundLaws F) (hP : TexPowLaws F)
+    {s c om : α} (h : TexRegion s c om) (hc6 : c ≤ 0.6) (ho1 : 1 ≤ om ∨ 0.03 ≤ c) (ho3 : om ≤ 3) :
+    ∃ wp fc ts k, hydraulicFromTexture F s c om 1 = .ok (wp, fc, ts, k) ∧
+      0 < wp ∧ wp < fc ∧ fc < ts ∧ ts < 1 ∧ 0 ≤ k :=
+  texture_order_region_om3 hR hP h hc6 ho1 ho3
+
+/-- COUNTER-STATEMENT: inside the range the pedotransfer functions were calibrated on (clay ≤ 60 %,
+organic matter ≤ 8 %) the order fails — sand 40 %, clay 60 %, organic matter 8 % has `th_s < th_fc`,
+and `add_layer_from_texture` raises `ValueError` (whatever `log`, `**`, `round` are). -/
+theorem texture_order_fails_in_calibrated_range (F : Fn α) :
+    (texRaw (0.4 : α) 0.6 8 1).thS < (texRaw (0.4 : α) 0.6 8 1).thFC ∧
+      hydraulicFromTexture F (0.4 : α) 0.6 8 1 = .error "E:value" :=
+  ⟨order_fails_40_60_8, raises_40_60_8 F⟩
+
+/-- COUNTER-STATEMENT: in the texture triangle the method can return a wilting point ABOVE field
+capacity without raising (pure clay, 8 % organic matter: 0.507 > 0.386 on the real method). -/
+theorem texture_returns_wp_above_fc {F : Fn α} (hR : TexRoundLaws F) :
+    ∃ wp fc ts k, hydraulicFromTexture F (0 : α) 1 8 1 = .ok (wp, fc, ts, k) ∧ fc < wp :=
+  returns_disordered_0_100_8 hR
+
+/-- COUNTER-STATEMENT: pure sand without organic matter has `th_wp < 0`; the method raises. -/
+theorem texture_raises_on_pure_sand (F : Fn α) :
+    hydraulicFromTexture F (1 : α) 0 0 1 = .error "E:value" := raises_pure_sand F
+
+/-- The 12 USDA class centroids (organic matter 2.5 %) are well ordered with positive `Ksat`. -/
+theorem usda_centroids_ordered {F : Fn α} (hR : TexRoundLaws F) (hL : TexLogPowLaws F) :
+    ∀ c ∈ usdaCentroids, ∃ wp fc ts k,
+      hydraulicFromTexture F ((c.1 : α) / 100) ((c.2 : α) / 100) 2.5 1 = .ok (wp, fc, ts, k) ∧
+        0 < wp ∧ wp < fc ∧ fc < ts ∧ ts < 1 ∧ 0 < k := centroid_order hR hL
+
+/-- The capillary-rise `if` tree is total: the pair written is always the pair of formulas of the
+class the tree selects; the `assert`s fail exactly when a class formula itself evaluates to 0. -/
+theorem cap_rise_tree_total (F : Fn α) (w f s k : α) :
+    crParams F w f s k =
+      if (crOfClass F k (crBranch w f s k).2).1 = 0 ∨ (crOfClass F k (crBranch w f s k).2).2 = 0 then none
+      else some (crOfClass F k (crBranch w f s k).2) := crParams_eq_branch F w f s k
+
+/-- `aCR` vanishes (and `assert aCR != 0` aborts the initialisation) only for a loamy layer with
+`Ksat = 5540` or a silty-clayey one with `Ksat = 795.75` mm/day. -/
+theorem cap_rise_aCR_zero_cases (F : Fn α) (cls : CrClass) {k : α} (hk : 0 ≤ k)
+    (h : (crOfClass F k cls).1 = 0) : (cls = .loamy ∧ k = 5540) ∨ (cls = .siltyClayey ∧ k = 795.75) :=
+  crA_zero_cases F cls hk h
+
+end texture
+
+/-- By exact computation over ℚ (exact half-even rounding): the polynomial part of the method gives
+for the 12 centroids exactly the thousandths the real method returns (table cross-checked against the
+implementation by `harness/tests/corr_soil_texture.py`). -/
+theorem usda_centroids_exact : centroidTable.all centroidRowOK = true := centroid_table
+
+/-- Tie to the source, re-proved on every run: no layer of a built-in soil, as /repo's `soil.py` builds
+them now, can trip `assert aCR != 0` when a water table is present. -/
+theorem builtin_soils_aCR_nonzero (F : Fn ℚ) : ∀ l ∈ Aqua.Generated.builtinLayersGen,
+    (crOfClass F l.ksat (crBranch l.wp l.fc l.s l.ksat).2).1 ≠ 0 := by
+  have hall : (Aqua.Generated.builtinLayersGen.all fun l =>
+      decide (0 ≤ l.ksat ∧ l.ksat ≠ 5540 ∧ l.ksat ≠ 795.75)) = true := by decide +kernel
+  intro l hl h
+  have hh := List.all_eq_true.mp hall l hl
+  simp only [decide_eq_true_eq] at hh
+  rcases crA_zero_cases F _ hh.1 h with ⟨_, e⟩ | ⟨_, e⟩
+  · exact hh.2.1 e
+  · exact hh.2.2 e
 
 /-- Tie to the source, re-proved on every run: the layers of the built-in soils as /repo's
 `soil.py` builds them now (table regenerated by `harness/translate/tables.py`) all satisfy
